@@ -77,19 +77,23 @@ class Case:
         t = T()(env.const(np.zeros(shape), dt), requires_grad=req)
         before = (tuple(t.shape), str(t.dtype), t.requires_grad)
         kind = None
+        # arguments handed over as NumPy float64 scalars (np.sqrt(2), np.float64(0.02)) instead of Python floats: NumPy promotes
+        # float32 arrays combined with them to float64, Python floats never do
+        npargs = bool(sp.get("npargs"))
+        as_arg = (lambda v: (S(v.n, np.dtype("float64")) if isinstance(v, S) else np.float64(v))) if npargs else (lambda v: v)
         if fn == "uniform_":
             a = env.scalar("a", lo=-3, hi=0, kind="data")
             w = env.scalar("w", lo=0.1, hi=3, kind="data")
-            r = init.uniform_(t, a, a + w)
+            r = init.uniform_(t, as_arg(a), as_arg(a + w))
             kind, lo_doc, hi_doc = "u", a, a + w
         elif fn == "normal_":
             mean = env.scalar("mean", lo=-3, hi=3, kind="data")
             std = env.scalar("std", lo=0.1, hi=3, kind="data")
-            r = init.normal_(t, mean, std)
+            r = init.normal_(t, as_arg(mean), as_arg(std))
             kind, mean_doc, std_doc = "z", mean, std
         elif fn == "constant_":
             val = env.scalar("val", lo=-3, hi=3, kind="data")
-            r = init.constant_(t, val)
+            r = init.constant_(t, as_arg(val))
             out.pair("every element is val", t.data, _full(shape, val, env))
         elif fn == "ones_":
             r = init.ones_(t)
@@ -100,7 +104,7 @@ class Case:
         elif fn in ("xavier_uniform_", "xavier_normal_"):
             gain = sp["gain"]
             fi, fo = fans(shape)
-            r = getattr(init, fn)(t, gain)
+            r = getattr(init, fn)(t, as_arg(gain))
             if fn == "xavier_uniform_":
                 b = gain * math.sqrt(6.0 / (fi + fo))
                 kind, lo_doc, hi_doc = "u", -b, b
@@ -110,7 +114,7 @@ class Case:
             fi, fo = fans(shape)
             fan = fi if sp["mode"] == "fan_in" else fo
             gain = torch_gain(sp["nonlinearity"], sp["a"])
-            kw = dict(a=sp["a"], mode=sp["mode"], nonlinearity=sp["nonlinearity"])
+            kw = dict(a=as_arg(sp["a"]), mode=sp["mode"], nonlinearity=sp["nonlinearity"])
             r = getattr(init, fn)(t, **kw)
             if fn == "kaiming_uniform_":
                 b = gain * math.sqrt(3.0 / fan)
@@ -195,6 +199,12 @@ def enumerate_specs(tier):
         for s in [(3,)] + shapes:
             for dt in ("float32", "float64"):
                 specs.append({"fn": fn, "shape": list(s), "dtype": dt, "req": dt == "float32"})
+    for fn in ("uniform_", "normal_", "constant_"):
+        specs.append({"fn": fn, "shape": [2, 2], "dtype": "float32", "req": True, "npargs": True})
+    for fn in ("xavier_uniform_", "xavier_normal_"):
+        specs.append({"fn": fn, "shape": [2, 3], "gain": GAINS[-1], "npargs": True})
+    for fn in ("kaiming_uniform_", "kaiming_normal_"):
+        specs.append({"fn": fn, "shape": [2, 3], "mode": "fan_in", "nonlinearity": "leaky_relu", "a": SLOPES[-1], "npargs": True})
     for s in shapes:
         for g in GAINS:
             for fn in ("xavier_uniform_", "xavier_normal_"):
